@@ -228,6 +228,20 @@ CHECKS["C14"] = dict(
     note=TB + "; the NCP (harness/ncpsim.py and the Coq store) is a specification-derived assumption, not EmberZNet",
 )
 
+CHECKS["C12"] = dict(
+    category="proof",
+    text=("Coq model of send_packet/_handle_frame_sent (pending table keyed by destination+tag, FIFO request lock, busy retries spaced by the "
+          "generated RETRY_DELAYS, confirmation wait); theorems with a global invariant over every event history with distinct requests: a "
+          "unicast returns normally only with an accepted enqueue AND a successful confirmation for its own destination and tag, both after "
+          "its submission (trace theorem); refusal / confirmed failure / no confirmation / still busy after the last retry raise; foreign, "
+          "duplicate and unsolicited confirmations complete nothing; no bookkeeping remains; commands are only ever issued by the unique "
+          "holder of the request lock (set-up + send atomic); busy statuses pinned through the C18 tables. Tied to the real "
+          "ControllerApplication.send_packet and the real per-version wrappers by correspondence (versions 4/8/13/14, thorough 4..14)."),
+    design_ref="DESIGN.md section 6 C12",
+    technique="Coq proof (global invariant over event histories) + model/implementation correspondence in virtual time",
+    note=TB + "; zigpy.util.Requests is the harness re-implementation; the extended-timeout set-up is one command in the harness",
+)
+
 NOT_YET = {}
 
 
